@@ -180,32 +180,33 @@ def rule_rw4(ctx):
                ("call", "Formula::quantify", (P(S, (UQ, "formula"), (QFm, "formula")), oq, ("upd", ("upd", ("upd", ov, "append", (iv,)), "sort", ()), "dedup", ()))))
     ok = v[0] == "match" and v[1] == S and v[2][0] == ref_arm and v[2][1] == ("_", ("call", "UnboxedFormula::rebox", (S,))) and len(v[2]) == 2
     ctx.add("RW-4", "join_nested_quantifiers", ok, ctx.site(b), "Q X (Q Y F) => Q (X u Y) F only for equal quantifiers; the variable lists are merged (sorted, deduplicated), nothing dropped", construct=v[2][0] if v[0] == "match" else v)
-    # extend_quantifier_scope
+    # extend_quantifier_scope: decided per (side of the quantifier, connective) on concrete nodes
+    from .. import leaves
     b = fx.fn("unstable::extend_quantifier_scope")
-    v = ev("unstable::extend_quantifier_scope")
-    UB = "UnboxedFormula::BinaryFormula"
-    ok_all = v[0] == "match" and v[1] == S and len(v[2]) == 3 and v[2][2] == ("_", ("call", "UnboxedFormula::rebox", (S,)))
-    for side, other, idx in (("lhs", "rhs", 0), ("rhs", "lhs", 1)):
-        arm = v[2][idx] if ok_all else None
-        ok = False
-        if arm and arm[0] == "UnboxedFormula::BinaryFormula{%s: Formula::QuantifiedFormula{quantification: Quantification{}}}" % side:
-            m = arm[1]
-            ok = m[0] == "match" and m[1] == P(S, (UB, "connective")) and [a[0] for a in m[2]] == ["BinaryConnective::Conjunction | BinaryConnective::Disjunction", "_"] and m[2][1][1] == F
-            if ok:
-                inner = m[2][0][1]
-                qvars = P(S, (UB, side), (QFm, "quantification"), ("Quantification", "variables"))
-                coll = ("phi", ("if", ("call", "IndexSet::contains", (("call", "Formula::free_variables", (P(S, (UB, other)),)), ("each", qvars)))), (("then", ("lit", True)), ("else", ("acc", ("lit", False)))))
-                ok = inner[0] == "match" and inner[1] == coll and dict((a[0], a[1]) for a in inner[2]).get("true") == F
-                newf = dict((a[0], a[1]) for a in inner[2]).get("false")
-                if ok and newf and newf[:2] == ("ctor", QFm):
-                    g = dict(newf[2])
-                    bf = dict(g["formula"][2]) if g["formula"][:2] == ("ctor", "Formula::BinaryFormula") else {}
-                    ok = bf.get("connective") == P(S, (UB, "connective")) and bf.get(side) == P(S, (UB, side), (QFm, "formula")) and bf.get(other) == P(S, (UB, other)) \
-                        and dict(g["quantification"][2]).get("variables") == qvars
-                else:
-                    ok = False
+
+    def C(n, **f):
+        return ("ctor", n, tuple(sorted(f.items())))
+    QN = C("Quantification", quantifier=("param", "$q"), variables=("param", "$vs"))
+    QF_ = C(QFm, quantification=QN, formula=("param", "$f"))
+    OTHER = C("Formula::AtomicFormula", **{"0": ("param", "$g")})
+    for side, other in (("lhs", "rhs"), ("rhs", "lhs")):
+        ok = True
+        why = []
+        for conn in fx.variants("syntax_tree::fol::sigma_0::BinaryConnective"):
+            node = C("Formula::BinaryFormula", connective=C("BinaryConnective::" + conn), **{side: QF_, other: OTHER})
+            v = sym.Eval(fx, inline_depth=0).function(b, [node])
+            got = sorted(((tuple(leaves.canon_exists(t) for t in ts), leaves.strip_acc(x)) for ts, x in leaves.leaves(v)), key=repr)
+            if conn in ("Conjunction", "Disjunction"):
+                clash = lambda pol: ("exists", ("param", "$vs"), ("call", "IndexSet::contains", (("call", "Formula::free_variables", (OTHER,)), ("at", ("param", "$vs")))), pol)
+                moved = C(QFm, quantification=QN, formula=C("Formula::BinaryFormula", connective=C("BinaryConnective::" + conn), **{side: ("param", "$f"), other: OTHER}))
+                want = sorted([((clash(True),), node), ((clash(False),), moved)], key=repr)
+            else:
+                want = [((), node)]
+            if got != want:
+                ok = False
+                why.append((conn, [(list(map(str, ts)), sym.pretty(x)[:80]) for ts, x in got]))
         ctx.add("RW-4", "extend_quantifier_scope:" + side, ok, ctx.site(b),
-                "(Q X F) o G => Q X (F o G) only for o in {and, or} and only if no X occurs free in G; operands keep their sides", construct=arm[0] if arm else None)
+                "(Q X F) o G => Q X (F o G) only for o in {and, or} and only if no X occurs free in G; operands keep their sides; every other node is unchanged", construct=why or None)
     # substitute_defined_variables / find_definition
     b = fx.fn("substitute_defined_variables::find_definition")
     v = ev("substitute_defined_variables::find_definition")
